@@ -51,10 +51,16 @@ func goodBlob(r *hx.Rand, g *hx.Gen) ([]byte, string) {
 	key := wire.NewKey(kind, r.Bytes(3), hx.Pick(r, []string{"ssh:", "ssh:app", ""}))
 	if r.Chance(1, 4) {
 		g.Stat("blob.cert." + kind)
-		return certBlob(r, key), wire.CertTypeName(key.TypeName())
+		g.Stat("pair." + ctx + "+cert-" + kind)
+		b := certBlob(r, key)
+		hitArm(b)
+		return b, wire.CertTypeName(key.TypeName())
 	}
 	g.Stat("blob.plain." + kind)
-	return key.Blob(wire.BodyOpt{}), key.TypeName()
+	g.Stat("pair." + ctx + "+plain-" + kind)
+	b := key.Blob(wire.BodyOpt{})
+	hitArm(b)
+	return b, key.TypeName()
 }
 
 func mp(v *big.Int) []byte { return wire.Mpint(v, 0) }
@@ -69,6 +75,8 @@ func badBlob(r *hx.Rand, g *hx.Gen) []byte {
 	one := big.NewInt(1)
 	pick := r.Intn(24)
 	g.Stat(fmt.Sprintf("bad.%02d", pick))
+	g.Stat(fmt.Sprintf("pair.%s+bad-%02d", ctx, pick))
+	cov.Hit("badBlobClass", fmt.Sprintf("%02d", pick))
 	switch pick {
 	case 0: // rsa exponent 1 / even / 2 / negative / 2^24+1 / 2^24-1 (the last is valid)
 		e := hx.Pick(r, []int64{1, 2, 4, 65536, -3, 1<<24 + 1, 1<<24 - 1, 3, 0})
@@ -246,10 +254,12 @@ func akLine(r *hx.Rand, g *hx.Gen) string {
 		declared = hx.Pick(r, []string{"ssh-rsa", "ssh-ed25519", "restrict", "ecdsa-sha2-nistp256", "ssh-ed25519-cert-v01@openssh.com", "rsa-sha2-256"})
 	}
 	line := ""
-	if r.Chance(1, 2) {
+	withOpts := r.Chance(1, 2)
+	if withOpts {
 		g.Stat("ak.with-options")
 		line = options(r, g) + ws(r)
 	}
+	g.Stat(fmt.Sprintf("pair.ak-options-%v+declared-%v", withOpts, map[bool]string{true: "ok", false: "mismatch"}[declared == tn]))
 	line += declared + ws(r) + b64
 	if c := comment(r); c != "" || r.Chance(1, 5) {
 		line += ws(r) + c
@@ -299,6 +309,8 @@ func khLine(r *hx.Rand, g *hx.Gen) string {
 		g.Stat("kh.very-short")
 		f = f[:2]
 	}
+	cov.Hit("knownHostsFieldCount", fmt.Sprint(len(f)))
+	g.Stat(fmt.Sprintf("pair.kh-fields-%d+marker-%v", len(f), strings.HasPrefix(f[0], "@")))
 	line := f[0]
 	for _, x := range f[1:] {
 		line += hx.Pick(r, []string{" ", " ", "\t", "  ", "\v", "\f"}) + x
@@ -323,7 +335,50 @@ func multi(r *hx.Rand, g *hx.Gen, one func(*hx.Rand, *hx.Gen) string) []byte {
 	return sanitize([]byte(s))
 }
 
+var cov = wire.NewCover()
+var ctx = "pub" // which op family the blob being built is for
+
+var plainNames = []string{"ssh-rsa", "ssh-dss", "ecdsa-sha2-nistp256", "ecdsa-sha2-nistp384", "ecdsa-sha2-nistp521", "sk-ecdsa-sha2-nistp256@openssh.com", "ssh-ed25519", "sk-ssh-ed25519@openssh.com"}
+
+// hitArm records which arm of parsePubKey's switch the blob's type name selects.
+func hitArm(blob []byte) {
+	t, _, ok := wire.ReadStr(blob)
+	if !ok {
+		cov.Hit("parsePubKey.arm", "short-read")
+		return
+	}
+	name := string(t)
+	for _, n := range plainNames {
+		if name == n {
+			cov.Hit("parsePubKey.arm", n)
+			return
+		}
+		if name == wire.CertTypeName(n) {
+			cov.Hit("parsePubKey.arm", name)
+			return
+		}
+	}
+	switch name {
+	case "rsa-sha2-256", "rsa-sha2-512", "rsa-sha2-256-cert-v01@openssh.com", "rsa-sha2-512-cert-v01@openssh.com":
+		cov.Hit("parsePubKey.arm", "signature-algorithm-name")
+	default:
+		cov.Hit("parsePubKey.arm", "unknown")
+	}
+}
+
 func gen(g *hx.Gen) {
+	arms := append([]string(nil), plainNames...)
+	for _, n := range plainNames {
+		arms = append(arms, wire.CertTypeName(n))
+	}
+	cov.Declare("parsePubKey.arm", append(arms, "signature-algorithm-name", "unknown", "short-read")...)
+	var bad []string
+	for i := 0; i < 24; i++ {
+		bad = append(bad, fmt.Sprintf("%02d", i))
+	}
+	cov.Declare("badBlobClass", bad...)
+	cov.Declare("knownHostsFieldCount", "2", "3", "4", "5", "6", "7")
+	defer cov.Report(g.StatN)
 	n := g.Count(4000, 100000)
 	r := g.R
 	for i := 0; i < n; i++ {
@@ -338,13 +393,18 @@ func gen(g *hx.Gen) {
 			if b == nil {
 				b = []byte{}
 			}
+			hitArm(b)
 			g.Emit("pub blob=%s pts=%s", hx.Hex(b), ptsField(b))
 		case k < 14:
+			ctx = "ak"
 			in := multi(r, g, akLine)
+			ctx = "pub"
 			g.Stat("op.ak")
 			g.Emit("ak in=%s pts=%s", hx.Hex(in), ptsField(b64Blobs(in)))
 		case k < 18:
+			ctx = "kh"
 			in := multi(r, g, khLine)
+			ctx = "pub"
 			g.Stat("op.kh")
 			g.Emit("kh in=%s pts=%s", hx.Hex(in), ptsField(b64Blobs(in)))
 		default: // raw bytes with line structure
